@@ -22,6 +22,10 @@ from concurrent.futures import ThreadPoolExecutor
 import vlib
 
 MAGIC = 0x11223344
+# allocation entry points of ckd_alloc.c intercepted by the harness (ledger tie)
+WRAP_FLAGS = ["-Wl," + ",".join("--wrap=" + f for f in (
+    "__ckd_calloc__", "__ckd_malloc__", "__ckd_realloc__", "__ckd_salloc__", "__ckd_calloc_2d__", "__ckd_calloc_3d__",
+    "__ckd_calloc_4d__", "__ckd_alloc_3d_ptr", "__ckd_alloc_2d_ptr", "ckd_free", "ckd_free_2d", "ckd_free_3d", "ckd_free_4d"))]
 VALS = lambda x: sorted({0, 1, (x + 1) & 0xffffffff, (x - 1) & 0xffffffff, 0x7fffffff, 0x80000000, 0xffffffff,
                          bswap(x)} - {x})
 
@@ -193,7 +197,7 @@ def syn_array(rng, kind, swap=False, chk=True, style="plain"):
     return syn_finish(s), ("rd", f"H,{kind}{k},V")
 
 
-def syn_mdef(rng, swap=False, hetero=False):
+def syn_mdef(rng, swap=False, hetero=False, last_ci=False):
     """a small binary mdef (bin_mdef.h layout): format words, counts, names, cd_tree, phone records, sequences"""
     E = ">" if swap else "<"
     s = Syn(swap)
@@ -202,17 +206,37 @@ def syn_mdef(rng, swap=False, hetero=False):
     s.text(b"FDMB" if swap else b"BMDF")
     s.fields["magic"] = 0
     # D19j: a descriptor that is not a multiple of 4 bytes (tables misaligned) must be refused
-    desc = b"bin mdef" + b"\0" * (4 * rng.range(1, 2) if rng.chance(0.75) else rng.range(1, 7))
+    desc = b"bin mdef" + b"\0" * (4 * rng.range(1, 2) if (last_ci or rng.chance(0.75)) else rng.range(1, 7))
     s.u32(1, "version"); s.u32(len(desc), "desc_len"); s.text(desc)
+    s.valid = len(desc) % 4 == 0
     n_ci, n_cd, n_emit = rng.range(1, 4), rng.range(0, 4), rng.range(1, 3)
     n_phone = n_ci + n_cd
     lens = [rng.range(1, 3) for _ in range(n_phone)] if hetero else [n_emit] * n_phone
     if hetero:
         for i in range(n_ci, n_phone):          # a CD phone may have more states than its CI phone
             lens[i] = rng.range(1, 3)
-    seqs, sen = [], 0
+    force_ci = {}
+    order = list(range(n_phone))            # storage order of the sequences; ssid of phone i = order.index(i)
+    if hetero and rng.chance(0.3):
+        rng.shuffle(order)
+    if last_ci and hetero:
+        # the sequence of CI phone 0 is stored last and is shorter than that of a CD phone of the same base phone:
+        # `j > n_emit_state_phone(ci)` lets j reach the cell behind the sequence area (the sseq_len bytes)
+        if n_cd == 0:
+            n_cd, n_phone = 1, n_phone + 1
+            lens.append(3)
+        while n_phone < 3:
+            n_cd, n_phone = n_cd + 1, n_phone + 1
+            lens.append(2)
+        lens[0], lens[n_ci] = 1, 3
+        force_ci[n_ci] = 0
+        order = [i for i in range(n_phone) if i != 0] + [0]
+        for k in (0, 1):                    # the two length bytes behind the sequence area differ (byte order visible)
+            if order[k] not in (0, n_ci):
+                lens[order[k]] = 1 + k
+    seqs, sen = [None] * n_phone, 0
     for i in range(n_phone):
-        seqs.append(list(range(sen, sen + lens[i]))); sen += lens[i]
+        seqs[i] = list(range(sen, sen + lens[i])); sen += lens[i]
     n_tree = rng.range(0, 3)
     names = sorted(rng.choice([b"A", b"AA", b"B", b"SIL", b"SI", b"SILX", b"T", b"Z", b"+NSN+"]) + bytes([65 + i]) * (i > 0)
                    for i in range(n_ci))
@@ -233,20 +257,20 @@ def syn_mdef(rng, swap=False, hetero=False):
         s.text(struct.pack(E + "hhi", i, 1, i + 1))
     s.regions = {"phone": len(s.b)}
     for i in range(n_phone):
-        ci = i if i < n_ci else rng.below(n_ci)
-        s.text(struct.pack(E + "ii", i, ci))
+        ci = i if i < n_ci else force_ci.get(i, rng.below(n_ci))
+        s.text(struct.pack(E + "ii", order.index(i), ci))
         s.text(bytes([1, 0, 0, 0]) if i < n_ci else bytes([i % 4, ci, rng.below(n_ci), rng.below(n_ci)]))
     s.u32(sum(lens), "sseq_size")
     s.regions["sseq"] = len(s.b)
-    for sq in seqs:
-        for v in sq:
+    for i in order:
+        for v in seqs[i]:
             s.text(struct.pack(E + "H", v))
     if hetero:
-        s.text(bytes(lens))
+        s.text(bytes(lens[i] for i in order))
     return s, ("mdef",)
 
 
-def syn_am(rng, stats):
+def syn_am(rng, stats, force_kind=None, force_sd=None):
     """a consistent set mdef / tmat / means / variances / sendump|mixw for a 39-dim front end, with (mostly) one
     cross-file mismatch: returns [(label, line-words-after-id)]"""
     three = rng.chance(0.5)
@@ -257,6 +281,7 @@ def syn_am(rng, stats):
     n_sen = struct.unpack_from("<i", b, md.fields["n_sen"])[0]
     kind = rng.weighted([("ok", 3), ("mixw_sen+", 3), ("mixw_sen-", 3), ("n_mgau", 2), ("one_cb", 3), ("veclen", 2),
                          ("nfeat", 1), ("dens", 2), ("ntmat", 2), ("sen_dump", 2), ("cont", 1)])
+    kind = force_kind or kind
     n_mgau = n_ci
     if kind == "n_mgau":
         n_mgau = n_ci + rng.choice([1, 2])
@@ -280,9 +305,11 @@ def syn_am(rng, stats):
             for k in range(4):
                 tm.u32(f2u(0.5 if k in (j, j + 1) else 0.0))
     syn_finish(tm)
-    use_sd = rng.chance(0.4) if kind not in ("mixw_sen+", "mixw_sen-", "cont") else False
+    use_sd = rng.chance(0.5) if kind not in ("mixw_sen+", "mixw_sen-", "cont") else False
     if kind == "sen_dump":
         use_sd = True
+    if force_sd is not None:
+        use_sd = force_sd
     ms = n_sen + (1 if kind == "mixw_sen+" else -1 if (kind == "mixw_sen-" and n_sen > 1) else 0)
     mdens = dens + (1 if kind == "dens" else 0)
     if use_sd:
@@ -305,7 +332,13 @@ def syn_am(rng, stats):
         xb = bytes(syn_finish(x).b)
     stats["am_kinds"][kind] = stats["am_kinds"].get(kind, 0) + 1
     out = []
-    for ct in ("1", "0"):
+    if kind == "ok":
+        # the PTM loader alone on damaged weights / codebooks (ledger stages sdHead, sdRows, mxHead, gauden)
+        base = ["am", "2", ",".join(str(v) for v in streams), hx(b), "-", hx(bytes(tm.b)), "-", hx(bytes(means.b)), "-", hx(bytes(vars_.b))]
+        for t in sorted({rng.below(len(xb)), len(xb) - 1, len(xb) // 2, 3, 30}):
+            out.append(("ptm_trunc", base + ["-", "sd" if use_sd else "mx", hx(xb), f"t{t}"]))
+        out.append(("ptm_trunc", base + [f"t{rng.below(len(vars_.b))}", "sd" if use_sd else "mx", hx(xb), "-"]))
+    for ct in ("1", "0", "2"):
         out.append((kind, ["am", ct, ",".join(str(v) for v in streams), hx(b), "-", hx(bytes(tm.b)), "-", hx(bytes(means.b)), "-",
                            hx(bytes(vars_.b)), "-", "sd" if use_sd else "mx", hx(xb), "-"]))
     return out
@@ -465,6 +498,95 @@ class StageA:
         return cres, mres
 
 
+_SRC_LINES = {}
+
+
+def alloc_name(file, line):
+    """`<file>:<left-hand side>` of the allocating assignment at (or just before, for a call spanning lines) file:line"""
+    if file not in _SRC_LINES:
+        p = vlib.REPO / "src" / file
+        _SRC_LINES[file] = p.read_text(errors="replace").split("\n") if p.exists() else []
+    ls = _SRC_LINES[file]
+    for l in range(line, max(0, line - 4), -1):
+        if 0 < l <= len(ls):
+            m = re.search(r"([A-Za-z_\*][\w\->\.\[\]\*]*)\s*=\s*(?:\([^()]*\)\s*)?(?:ckd_\w+|bitvec_alloc)\s*\(", ls[l - 1])
+            if m:
+                return f"{file}:{m.group(1)}"
+    return f"{file}:?{line}"
+
+
+def abstract_trace(trace, names):
+    """real allocation trace -> ['+name#k', '-name#k', ...] restricted to the objects named in `names`"""
+    objs, counts, out = {}, {}, []
+    for tok in trace.split(","):
+        w = tok.split(":")
+        if w[0] == "a" and len(w) == 4:
+            nm = alloc_name(w[1], int(w[2]))
+            if nm in names:
+                k = counts.get(nm, 0)
+                counts[nm] = k + 1
+                objs[w[3]] = f"{nm}#{k}"
+                out.append("+" + objs[w[3]])
+        elif w[0] == "f" and len(w) == 2:
+            if w[1] in objs:
+                out.append("-" + objs.pop(w[1]))
+    return out
+
+
+def abstract_ledger(spec):
+    """'stage|a0,a1,f1|0=name;1=name' -> (stage, ['+name#k', ...], names)"""
+    stage, evs, tab = spec.split("|")
+    names = dict(x.split("=", 1) for x in tab.split(";") if x)
+    counts, objs, out = {}, {}, []
+    for e in evs.split(","):
+        if not e:
+            continue
+        i = e[1:]
+        if e[0] == "a":
+            nm = names[i]
+            k = counts.get(nm, 0)
+            counts[nm] = k + 1
+            objs[i] = f"{nm}#{k}"
+            out.append("+" + objs[i])
+        else:
+            out.append("-" + objs.get(i, "?" + i))
+    return stage.split(".")[-1] if "(" not in stage else stage.replace("SSVerif.S3file.Ledger.", ""), out, set(names.values())
+
+
+LEDGER_NAMES = {
+    "tmat": {"tmat.c:t", "tmat.c:t->tp", "tmat.c:tp"},
+    "gau": {"ms_gauden.c:g", "ms_gauden.c:g->det", "ms_gauden.c:veclen", "ms_gauden.c:out", "ms_gauden.c:buf"},
+    "lda": {"s3file.c:*buf", "s3file.c:*arr"}, "rd": {"s3file.c:*buf", "s3file.c:*arr"},
+    "mdef": {"bin_mdef.c:m", "bin_mdef.c:m->ciname", "bin_mdef.c:m->sseq", "bin_mdef.c:m->cd2cisen", "bin_mdef.c:m->sen2cimap",
+             "bin_mdef.c:m->ciname[0]"},
+    "am": {"ptm_mgau.c:s", "ms_gauden.c:g", "ptm_mgau.c:*out_mixw", "ptm_mgau.c:pdf", "ptm_mgau.c:s->sen2cb", "ptm_mgau.c:s->hist",
+           "ptm_mgau.c:s->hist[i].topn", "ptm_mgau.c:s->hist[i].mgau_active"},
+}
+
+
+def judge_ledger(meta, cl, ml):
+    """None when there is nothing to compare or the real trace equals the ledger of the stage the model reaches"""
+    mm = re.search(r" ledger=(\S*)", ml)
+    if not mm:
+        return None
+    stage, led, _ = abstract_ledger(mm.group(1))
+    cm = re.search(r" trace=(\S*)", cl)
+    real = abstract_trace(cm.group(1), LEDGER_NAMES.get(meta["target"], set())) if cm else []
+    def canon(evs):
+        # the order of releases inside one run of consecutive releases is not part of the comparison
+        out, run = [], []
+        for e in evs:
+            if e[0] == "-":
+                run.append(e)
+            else:
+                out += sorted(run) + [e]
+                run = []
+        return out + sorted(run)
+    if canon(real) == canon(led):
+        return ("ok", f"{meta['target']}:{stage}")
+    return ("bad", {"stage": stage, "ledger": led, "trace": real})
+
+
 def judge_a(case, cl, ml):
     """returns (ok, info) for one stage-A case"""
     cid, line, meta = case
@@ -490,7 +612,12 @@ def judge_a(case, cl, ml):
         impl_bad = c_ok and meta["kind"] in ("trunc", "field", "chksum") and meta.get("must_reject", False)
         return False, {"why": "model and implementation differ", "impl": ccore, "model": mcore,
                        "impl_violates": impl_bad, "sig": "accepted" if impl_bad else "differs"}
-    return True, {"site": d.get("site", "-"), "core": ccore}
+    lj = judge_ledger(meta, cl, ml)
+    if lj is not None and lj[0] == "bad":
+        return False, {"why": "allocation trace of the implementation differs from the ownership ledger of the stage the model reaches",
+                       "impl": lj[1]["trace"], "model": {"stage": lj[1]["stage"], "ledger": lj[1]["ledger"]},
+                       "impl_violates": False, "sig": "ledger"}
+    return True, {"site": d.get("site", "-"), "core": ccore, "ledger_stage": lj[1] if lj else None}
 
 
 # ----------------------------------------------------------------------------------------------
@@ -515,12 +642,14 @@ def gen_stage_a(c, A, tier, stats):
         for swap in (False, True):
             for het in (False, True):
                 makers.append(("mdef", lambda swap=swap, het=het: syn_mdef(rng, swap, het)))
+    for swap in (False, True):
+        makers.append(("mdef", lambda swap=swap: syn_mdef(rng, swap, True, last_ci=True)))
     for name, mk in makers:
         s, target = mk()
         b = bytes(s.b)
         stats["syn_files"][name] = stats["syn_files"].get(name, 0) + 1
         meta = {"target": target[0], "file": "syn-" + name}
-        A.add(target, [(hx(b), "-")], dict(meta, kind="intact"))
+        A.add(target, [(hx(b), "-")], dict(meta, kind="intact" if getattr(s, "valid", True) else "invalid"))
         for t in range(len(b)):
             A.add(target, [(hx(b), f"t{t}")], dict(meta, kind="trunc", must_reject=True))
         for fname, off in s.fields.items():
@@ -567,8 +696,11 @@ def gen_stage_a(c, A, tier, stats):
     A.add(("sen",), [(hx(bytes(wrap.b) + bytes(64)), "-")], {"target": "sen", "file": "syn-sen", "kind": "wrap"})
     # the assembly of the acoustic model from consistent files with one cross-file mismatch
     stats["am_kinds"] = {}
-    for _ in range(40 if tier == "quick" else 400):
-        for kind, words in syn_am(rng, stats):
+    forced = [("ok", True), ("ok", False), ("mixw_sen+", None), ("mixw_sen-", None), ("n_mgau", None), ("one_cb", None),
+              ("cont", None), ("veclen", None), ("dens", None), ("ntmat", None), ("sen_dump", None)]
+    for j in range(40 if tier == "quick" else 400):
+        fk, fs = forced[j] if j < len(forced) else (None, None)
+        for kind, words in syn_am(rng, stats, fk, fs):
             cid = f"a{A.n}"; A.n += 1
             A.cases.append((cid, " ".join([cid] + words), {"target": "am", "file": "syn-am", "kind": kind}))
     # mixture weights read for codebooks with other dimensions
@@ -950,7 +1082,7 @@ def check(c):
                       "feat_params.json / noisedict.txt faults are judged for cleanliness only (their parsers are the subject of C10/C14)"]
     if not c.lean_obligations():
         return
-    binp0 = vlib.build_harness("h_c17")
+    binp0 = vlib.build_harness("h_c17", extra_flags=WRAP_FLAGS)
     binp = c.scratch / "h_c17"
     shutil.copy(binp0, binp)
     t_start = time.time()
@@ -980,7 +1112,7 @@ def check(c):
         envs[tag] = prepare_model(c, tag)
         infos[tag] = gen_stage_a_real(c, A, c.tier, stats, vlib.REPO / "model" / tag, tag)
     cres, mres = A.run(nw)
-    a_ok, a_bad, sites, a_kinds, model_sites = 0, 0, {}, {}, {}
+    a_ok, a_bad, sites, a_kinds, model_sites, ledger_stages = 0, 0, {}, {}, {}, {}
     plan_accepts = {tag: {} for tag in models}
     for case in A.cases:
         cid, line, meta = case
@@ -988,11 +1120,13 @@ def check(c):
         kk = f"{meta['target']}/{meta['kind']}"
         a_kinds[kk] = a_kinds.get(kk, 0) + 1
         ml = mres.get(cid, "")
-        ms = ml.split("site=")[-1].strip() if "site=" in ml else "-"
+        ms = ml.split("site=")[-1].split(" ledger=")[0].strip() if "site=" in ml else "-"
         model_sites[ms] = model_sites.get(ms, 0) + 1
         if ok:
             a_ok += 1
             sites[info["site"]] = sites.get(info["site"], 0) + 1
+            if info.get("ledger_stage"):
+                ledger_stages[info["ledger_stage"]] = ledger_stages.get(info["ledger_stage"], 0) + 1
             # remember what the plan model says about damaged bundled files (used as expectation in stage B)
             f = meta["file"]
             if "/" in f and f.split("/")[0] in plan_accepts:
@@ -1029,6 +1163,19 @@ def check(c):
              not missed, missed)
     c.oblige("stage A: every intact synthetic/bundled file is accepted by the model (plans are not vacuous rejecters)", intact_ok)
 
+    # the ledger tie: every failure stage of every ledger that the repaired code can reach was compared with a real trace
+    want = ["tmat:header", "tmat:chksum", "tmat:ok", "rd:dims", "rd:mismatch", "rd:ok", "lda:header", "lda:chksum", "lda:dims", "lda:ok",
+            "lda:LdaStage.array_(ArrStage.dims)", "lda:LdaStage.array_(ArrStage.mismatch)",
+            "gau:ok", "gau:mismatch", "gau:GauStage.means_(ParamStage.header)", "gau:GauStage.means_(ParamStage.veclen)",
+            "gau:GauStage.means_(ParamStage.chksum)", "gau:GauStage.vars_(ParamStage.header)", "gau:GauStage.vars_(ParamStage.veclen)",
+            "gau:GauStage.vars_(ParamStage.chksum)", "mdef:pre", "mdef:counts", "mdef:tables", "mdef:seqs", "mdef:maps", "mdef:ok",
+            "am:gauden", "am:checks", "am:sdHead", "am:sdRows", "am:mxHead", "am:nsen", "am:okSd", "am:okMx"]
+    pend_fixes = {e["fix"] for k in groups for e in [pending_match(k, pend)] if e}
+    if "D19l" in pend_fixes:        # the stage exists only in the repaired code (see corpus/C17/pending-findings.json)
+        want.remove("am:nsen")
+    miss = [w for w in want if w not in ledger_stages]
+    c.oblige(f"ledger tie: the allocation trace of the implementation equals the ownership ledger at all {len(want)} reachable stages "
+             f"({sum(ledger_stages.values())} traces compared)", not miss, {"stages never compared": miss})
     # ---- stage B
     b_total, b_kinds, b_sites, b_out = 0, {}, {}, {}
     for tag in models:
@@ -1070,7 +1217,7 @@ def check(c):
                   "stageA_cases": len(A.cases), "stageA_agree": a_ok, "stageA_by_target_kind": a_kinds,
                   "stageA_reject_sites_reached_in_C": dict(sorted(sites.items(), key=lambda x: -x[1])[:60]),
                   "stageA_model_outcomes_by_site": dict(sorted(model_sites.items(), key=lambda x: -x[1])[:60]),
-                  "synthetic_files": stats["syn_files"], "stageB_faults": b_total, "stageB_by_file_kind_path": b_kinds,
+                  "synthetic_files": stats["syn_files"], "ledger_traces_compared_by_stage": dict(sorted(ledger_stages.items())), "stageB_faults": b_total, "stageB_by_file_kind_path": b_kinds,
                   "stageB_outcomes": b_out, "stageB_reject_sites": dict(sorted(b_sites.items(), key=lambda x: -x[1])[:50]),
                   "bundled_files_bytes": stats["b_files"], "assembly_cases_by_kind": stats.get("am_kinds"),
                   "stageB_expectations_from_assembly_model": stats.get("assembly_queries"), "models": models, "workers": nw,
@@ -1081,7 +1228,7 @@ def check(c):
 
 def replay(c, path):
     c.lean_obligations()
-    binp0 = vlib.build_harness("h_c17")
+    binp0 = vlib.build_harness("h_c17", extra_flags=WRAP_FLAGS)
     binp = c.scratch / "h_c17"
     shutil.copy(binp0, binp)
     obj = json.loads(open(path).read())
